@@ -218,8 +218,10 @@ def _attrs_of(o):
 
 class Iter:
     """A first-class iterator over known items (iter(list)); shared by `for` and next()."""
-    def __init__(self, items, pos=0):
-        self.items, self.pos = list(items), pos
+    def __init__(self, items, pos=0, live=False):
+        # live: an iterator over a list of the heap walks that very list by position, as Python's does (items removed or added while it
+        # runs are skipped or met)
+        self.items, self.pos = (items if live and type(items) is list else list(items)), pos
 
     def __repr__(self):
         return 'Iter(%r@%d)' % (self.items, self.pos)
@@ -1458,7 +1460,8 @@ class Interp:
                and any(isinstance(x, (ast.Yield, ast.YieldFrom)) for b in n.body for x in ast.walk(b)):
                 seq = self._seq_of(it)
                 if seq is not None:
-                    it = Iter(seq)          # the loop may be suspended at a yield: its position lives in the frame
+                    # the loop may be suspended at a yield: its position lives in the frame (over a list of the heap: in that list)
+                    it = Iter(it, live=True) if type(it) is list and self.heap else Iter(seq)
             if isinstance(it, Iter):
                 if getattr(it, 'lazy_mismatch', None):
                     self.imprecise.append(it.lazy_mismatch)
@@ -4755,7 +4758,7 @@ class Interp:
             return hasattr(args[0], args[1])        # a Python constant (str, number, list, dict, None)
         if fname == 'iter' and 'iter' not in s.env and len(args) == 1 and not kwargs:
             if isinstance(args[0], (list, tuple)) or (isinstance(args[0], str) and not isinstance(args[0], M._StringLetters)):
-                return Iter(args[0])
+                return Iter(args[0], live=self.heap and type(args[0]) is list)
             if isinstance(args[0], Iter):
                 return args[0]
         if fname == 'next' and 'next' not in s.env and args and isinstance(args[0], Iter):
